@@ -200,7 +200,10 @@ Proof. vm_compute. split; reflexivity. Qed.
 (** the hypotheses of the every-call theorems hold of it (the only field selection is [the_field]) *)
 Lemma only_field f : in_request Z the_op [] f -> f = the_field.
 Proof.
-  intros [H|(p & [] & _)]. cbn [ao_body the_op] in H.
+  intros (m & Hm & H).
+  assert (Em : m = ao_body the_op).
+  { destruct Hm as [|n0 name def _ _ Hl]; [reflexivity|discriminate]. }
+  subst m. cbn [ao_body the_op] in H.
   inversion H as [|k kids n f' Hin Hf]; subst.
   destruct Hin as [<-|[]]. inversion Hf as [f'' kids'|k' kids' n' f'' Hin' _]; subst; [reflexivity|destruct Hin'].
 Qed.
